@@ -27,7 +27,7 @@ type Program struct {
 	Dir   string
 	Pkgs  []*packages.Package
 	Prog  *ssa.Program
-	SSA   map[string]*ssa.Package // by import path
+	SSA   map[string]*ssa.Package  // by import path
 	Funcs map[string]*ssa.Function // by short key
 	Keys  map[*ssa.Function]string
 }
@@ -81,7 +81,9 @@ func loadProgram(dir string) (*Program, error) {
 }
 
 // funcKey is the short stable name used in contract files:
-//   goat.parseGrpcTimeout, goat.(*handler).resetStream, client.(*clientStream).readLoop$1
+//
+//	goat.parseGrpcTimeout, goat.(*handler).resetStream, client.(*clientStream).readLoop$1
+//
 // Only functions of the module get keys via this route; others use fullName.
 func funcKey(fn *ssa.Function) string {
 	pkg := fn.Package()
